@@ -97,6 +97,32 @@ def map_job(pdesc, inputs, folder, storage, cleanup, logf, die_after=None, torn=
     return job
 
 
+def learners_job(pdesc, inputs, folder, logf):
+    """Executed inside a child: resume an interrupted run through create_learners(cleanup=False) + simple_run()."""
+    def job():
+        from pipefunc.map.adaptive import create_learners
+        pd = json.loads(json.dumps(pdesc))
+        build.LOG.clear()
+        build._COUNTS.clear()  # noqa: SLF001
+        build.LOG_FILE = logf
+        start = len(build.read_log())
+        fnames = [fd["name"] for fd in pd["funcs"]]
+        evs = [pmap.ev(e="begin", F=fnames, cleanup=False, fixed=[])]
+        try:
+            with contextlib.redirect_stdout(io.StringIO()):
+                pl = build.make_pipeline(pd)
+                inp = pmap.inputs_to_py(inputs, {n: "list" for n, _ in inputs})
+                learners = create_learners(pl, inp, folder, storage="file_array", cleanup=False)
+                learners.simple_run()
+            evs += pmap.log_events(start)
+            evs.append(pmap.ev(e="ldone"))
+        except Exception as ex:  # noqa: BLE001
+            evs += pmap.log_events(start)
+            evs.append(pmap.ev(e="error", cls=type(ex).__name__, msg=str(ex)[:300]))
+        return {"ev": evs, "ops": None}
+    return job
+
+
 def do_map_from(pl, pd, inp, folder, storage, cleanup, start):
     fnames = [fd["name"] for fd in pd["funcs"]]
     events = [pmap.ev(e="begin", F=fnames, cleanup=cleanup, fixed=[])]
@@ -215,19 +241,27 @@ def file_class(rel: str) -> str:
     return "dir"
 
 
-def history(scen, pdesc, storage, crash_points: list[dict], logdir: str) -> dict:
+def history(scen, pdesc, storage, crash_points: list[dict], logdir: str, resume: str = "map") -> dict:
     """One history: run (dies at crash_points[0]) -> resume (dies at crash_points[1]) ... -> final resume."""
     folder = tempfile.mkdtemp(prefix="pfverif_c05_", dir=logdir)
     shutil.rmtree(folder)
     logf = folder + ".calls"
     shapes = ext_shapes(scen)
     evs: list[dict] = []
-    meta = {"storage": storage, "crash": crash_points, "codes": []}
+    meta = {"storage": storage, "crash": crash_points, "codes": [], "resume": resume}
     try:
         pos = 0
         for n, cp in enumerate(crash_points + [None]):
             cleanup = n == 0
-            if cp is None:
+            if cp is None and resume == "learners":
+                code, payload = in_child(learners_job(pdesc, scen["inputs"], folder, logf))
+                if payload is not None and payload["ev"][-1]["e"] == "ldone":
+                    payload["ev"].append(pmap.ev(e="stored", disk=observe_disk(folder, shapes)))
+                    code2, p2 = in_child(map_job(pdesc, scen["inputs"], folder, storage, False, logf))
+                    if p2 is None:
+                        raise MachineryError(f"final map child exited with {code2}")
+                    payload["ev"] += p2["ev"]
+            elif cp is None:
                 code, payload = in_child(map_job(pdesc, scen["inputs"], folder, storage, cleanup, logf))
             elif cp["kind"] == "fs":
                 code, payload = in_child(map_job(pdesc, scen["inputs"], folder, storage, cleanup, logf,
@@ -264,7 +298,7 @@ def classify(t: dict, reached: int, ops: list) -> dict:
     cps = t["meta"]["crash"]
     cp = cps[0] if cps else {}
     sig = {"check": "crash-resume", "event": e["e"], "cls": e.get("cls", ""), "storage": t["meta"]["storage"],
-           "ncrashes": len(cps)}
+           "ncrashes": len(cps), "resume": t["meta"].get("resume", "map")}
     if t["meta"].get("changed_inputs"):
         return {"check": "changed-inputs", "event": e["e"], "inputs_kind": t["meta"]["changed_inputs"]}
     if cp.get("kind") == "fs":
@@ -329,6 +363,11 @@ def run(ctx: Ctx) -> None:
                     opsof.append(ops)
                     if ops[k - 1][0] == "write":
                         hist.append(history(scen, pdesc, st, [{"kind": "fs", "k": k, "torn": True}], logdir))
+                        opsof.append(ops)
+                # resume through learners (create_learners(cleanup=False).simple_run()), then a full map must be idle
+                if st == "file_array":
+                    for k in (ks if not quick else ks[::2]):
+                        hist.append(history(scen, pdesc, st, [{"kind": "fs", "k": k}], logdir, resume="learners"))
                         opsof.append(ops)
                 # two successive crashes
                 pairs = [(rng.choice(ks), rng.randint(1, max(1, len(ops)))) for _ in range(3 if quick else 25)]
